@@ -218,6 +218,24 @@ def gen_arith(rng, kinds):
     return b.prog("arith")
 
 
+def gen_rebind(rng, kind, form):
+    """one NAME bound twice before the loop to different pin texts (offset / other variable / literal), the variable not
+    re-assigned in between: every declaration needs its own pinMode although the name is the same"""
+    b = B(rng)
+    n = NPINS[kind]
+    b.set(b.pre, 0, ("lit", rng.choice([2, 3])))
+    b.set(b.pre, 1, ("lit", rng.choice([9, 10])))
+    idx = b.new(kind)
+    b.decl(b.pre, kind, idx, pins_from(0, n))
+    if rng.random() < 0.5:
+        b.cmd(b.pre, kind, idx)
+    second = {"offset": pins_from(0, n, n), "other": pins_from(1, n), "literal": [("lit", 15 + i) for i in range(n)]}[form]
+    b.decl(b.pre, kind, idx, second)
+    b.cmd(b.pre, kind, idx)
+    b.cmd(b.loop, kind, idx)
+    return b.prog("rebind_text")
+
+
 def gen_defect(rng, form, kind):
     """the listed classes outside the guard (correspondence only; never judged by the oracle)"""
     b = B(rng)
@@ -305,6 +323,9 @@ def generate(rng, thorough):
                 progs.append(gen_advance(rng, [a, c], cmd_each=True))
     for _ in range(40 if thorough else 6):
         progs.append(gen_advance(rng, [rng.choice(INPLACE) for _ in range(rng.randrange(2, 5))], cmd_each=rng.random() < 0.6))
+    for k in ["Led", "RGB", "Motor", "Buzzer"]:      # (an Ultrasonic / Button name bound twice: listed findings of the literal-pin model)
+        for form in ("offset", "other", "literal"):
+            progs.append(gen_rebind(rng, k, form))
     for k in QK:
         progs.append(gen_arith(rng, [k, k]))
     for _ in range(40 if thorough else 6):
@@ -320,6 +341,77 @@ def generate(rng, thorough):
     for _ in range(300 if thorough else 30):
         progs.append(gen_random(rng))
     return progs
+
+
+# ------------------------------------------------------------------------------------------ Servo (oracle only)
+SERVO_HEADER = "from Reduino.Actuators import Servo\n"
+
+
+def gen_servo(rng, form):
+    """Servo objects on a variable pin: one Servo object per NAME, attached once in the hoisted block; the oracle is on the
+    object: every write of the executed firmware goes to an attached object (the mock reports pin -1 for an unattached one)
+    and every Servo name is attached exactly once.  Not in the Gallina model (the resource is the object, not the pin)."""
+    a = rng.choice([3, 5, 9])
+    n = rng.choice([2, 3])
+    lines = [SERVO_HEADER.rstrip("\n"), f"pin = {a}"]
+    names = []
+    where_loop = form == "looptop"
+    body = []
+    for j in range(n):
+        nm = f"sv{j + 1:02d}"
+        names.append(nm)
+        arg = "pin" if form in ("advance", "looptop", "same_text") else f"pin + {j}"
+        tgt = body if where_loop else lines
+        ind = "    " if where_loop else ""
+        tgt.append(f"{ind}{nm} = Servo({arg})")
+        if rng.random() < 0.7 or j == n - 1:
+            tgt.append(f"{ind}{nm}.write({rng.choice([10, 45, 90])})")
+        if form == "advance" and j < n - 1:
+            lines.append(rng.choice(["pin += 1", "pin = pin + 1"]))
+    lines.append("while True:")
+    body.append(f"    {names[-1]}.write({rng.choice([20, 120])})")
+    body.append(f"    {names[0]}.write(30)")
+    return {"src": "\n".join(lines + body) + "\n", "names": names, "cls": "servo_" + form}
+
+
+def servo_family(ctx, thorough):
+    rng = ctx.rng
+    progs = [gen_servo(rng, f) for f in ("advance", "arith", "same_text", "looptop") for _ in range(6 if thorough else 2)]
+    ts = fw.transpile_many([p["src"] for p in progs])
+    jobs, idx = [], []
+    for i, (p, t) in enumerate(zip(progs, ts)):
+        if not t["ok"]:
+            ctx.disagree("pin expressions: parse()/emit() rejected a generated Servo script", p["src"], "accepted", t.get("exc"))
+            continue
+        idx.append(i)
+        jobs.append({"cpp": t["cpp"], "input": "", "loops": NP})
+    judged = 0
+    for i, o in zip(idx, fw.run_sketches(jobs)):
+        p = progs[i]
+        if not o["compiled"] or o["rc"] != 0:
+            ctx.disagree("pin expressions: emitted Servo sketch does not compile / run", p["src"], None, (o["compile_log"] or o["stderr"])[-600:])
+            continue
+        ok, bad = servo_cbu(o["events"], len(p["names"]))
+        judged += 1
+        if not ok:
+            ctx.fail("Servo attach-before-write (executed firmware): a Servo object is written before it was attached / a Servo name is not attached exactly once",
+                     {"src": p["src"], "family": "pinexpr-servo", "servos": len(p["names"])},
+                     "every SVW/SVU on an attached object; one attach per Servo name", bad, key="pinexpr-servo-attach")
+    return judged
+
+
+def servo_cbu(events, n_names):
+    attached, n_att = set(), 0
+    for e in events:
+        q = e.split(" ")
+        if q[0] == "SVA":
+            attached.add(int(q[1]))
+            n_att += 1
+        elif q[0] in ("SVW", "SVU") and int(q[1]) not in attached:
+            return False, {"write_on_unattached_object": e}
+    if n_att != n_names:
+        return False, {"attach_events": n_att, "servo_names": n_names}
+    return True, None
 
 
 # ------------------------------------------------------------------------------------------ engines
@@ -431,13 +523,15 @@ def run_family(ctx, findings):
                 ctx.disagree("pin expressions: known-finding witness is inside the model's guard", w["src"], None, None)
             if "model" in rec and canon(rec["model"]) != canon(rec["real"]):
                 ctx.disagree("pin expressions: model does not reproduce the known-finding witness trace", w["src"], canon(rec["model"]), canon(rec["real"]))
-    dist = {"classes": cls, "sketches_run": stats.get("sketches", 0), "sketches_not_compiled": stats.get("not_compiled", 0),
+    n_servo = servo_family(ctx, thorough)
+    dist = {"servo_scripts_judged_on_the_object (attach once per name, every write on an attached object)": n_servo,
+            "classes": cls, "sketches_run": stats.get("sketches", 0), "sketches_not_compiled": stats.get("not_compiled", 0),
             "rejected_by_parse": stats.get("rejected", 0), "numeric_pin_events_compared": stats.get("events", 0),
             "inside_guard_judged_by_the_monitor": stats.get("inside", 0), "outside_guard_correspondence_only": stats.get("outside", 0),
             "inside_guard_where_text_only_keys_would_differ": name_matters,
             "declarations_before_the_loop": kinds_pre, "declarations_at_loop_top": kinds_loop,
             "extracted_monitor_runs_on_real_traces": stats.get("monitor_runs", 0)}
-    return len(progs) + stats.get("monitor_runs", 0), dist, [progs[0]["src"], progs[-1]["src"]]
+    return len(progs) + n_servo + stats.get("monitor_runs", 0), dist, [progs[0]["src"], progs[-1]["src"]]
 
 
 def _tup(s):
@@ -458,6 +552,12 @@ def replay(case):
     if not o["compiled"] or o["rc"] != 0:
         print("firmware did not compile / run:", (o["compile_log"] or o["stderr"])[-600:])
         return 1
+    if case.get("family") == "pinexpr-servo":
+        ok, bad = servo_cbu(o["events"], case["servos"])
+        print(case["src"])
+        print("servo events:", " ".join("[" + e + "]" for e in o["events"] if e.startswith("SV")))
+        print("REPRODUCED: %s" % bad if not ok else "replay: no difference on this case now")
+        return 0 if ok else 1
     real = abstract_events(o["events"])
     ok, bad = py_cbu(real)
     print(case["src"])
